@@ -42,7 +42,7 @@ func graphExpect(name string) []Expect {
 // Catalogue returns every operation the pipeline drivers exercise.
 func Catalogue() []Op {
 	var ops []Op
-	mm := map[string]string{"users": "User", "pets": "Pet", "langs": "Lang", "profiles": "Profile"}
+	mm := map[string]string{"users": "User", "pets": "Pet", "langs": "Lang", "profiles": "Profile", "memos": "Memo", "drafts": "Draft"}
 	add := func(o Op) { o.MainModel = mm[o.Main]; ops = append(ops, o) }
 
 	// ---- create ---------------------------------------------------------------------------
@@ -165,6 +165,25 @@ func Catalogue() []Op {
 		Run: func(db *gorm.DB) error {
 			return db.Session(&gorm.Session{SkipHooks: true}).Delete(&fam.User{ID: 3, Name: "u3"}).Error
 		}})
+
+	// ---- models with only After* / only Before* hooks ------------------------------------------
+	add(Op{Name: "memo_create", Kind: "create", Write: true, Main: "memos", Expect: ex("Memo", "create", "mN"),
+		Run: func(db *gorm.DB) error { return db.Create(&fam.Memo{Name: "mN"}).Error }})
+	add(Op{Name: "memo_update", Kind: "update", Write: true, Main: "memos", Expect: ex("Memo", "update", "m1"),
+		Run: func(db *gorm.DB) error { return db.Model(&fam.Memo{ID: 1, Name: "m1"}).Update("v", 7).Error }})
+	add(Op{Name: "memo_delete", Kind: "delete", Write: true, Main: "memos", Expect: ex("Memo", "delete", "m2"),
+		Run: func(db *gorm.DB) error { return db.Delete(&fam.Memo{ID: 2, Name: "m2"}).Error }})
+	add(Op{Name: "memo_delete_slice", Kind: "delete", Write: true, Main: "memos", Expect: ex("Memo", "delete", "m1", "m2"),
+		Run: func(db *gorm.DB) error {
+			ms := []fam.Memo{{ID: 1, Name: "m1"}, {ID: 2, Name: "m2"}}
+			return db.Delete(&ms).Error
+		}})
+	add(Op{Name: "draft_create", Kind: "create", Write: true, Main: "drafts", Expect: ex("Draft", "create", "dN"),
+		Run: func(db *gorm.DB) error { return db.Create(&fam.Draft{Name: "dN"}).Error }})
+	add(Op{Name: "draft_update", Kind: "update", Write: true, Main: "drafts", Expect: ex("Draft", "update", "d1"),
+		Run: func(db *gorm.DB) error { return db.Model(&fam.Draft{ID: 1, Name: "d1"}).Update("v", 7).Error }})
+	add(Op{Name: "draft_delete", Kind: "delete", Write: true, Main: "drafts", Expect: ex("Draft", "delete", "d2"),
+		Run: func(db *gorm.DB) error { return db.Delete(&fam.Draft{ID: 2, Name: "d2"}).Error }})
 
 	// ---- association mode (writes) --------------------------------------------------------
 	add(Op{Name: "assoc_append_many", Kind: "assoc", Write: true, Main: "pets", Expect: cat(ex("Pet", "create", "petN"), ex("User", "update", "u1")),
